@@ -1,5 +1,6 @@
 (* Helpers for the generated correspondence files (build/cases/*.v). *)
 From Coq Require Import List Bool ZArith QArith Qabs String.
+From PE Require Export Base.QUtil.
 Import ListNotations.
 
 (* indices of the cases whose in-Coq comparison model-vs-implementation failed *)
@@ -34,6 +35,9 @@ Definition option_eqb {A} (eqb : A -> A -> bool) (a b : option A) : bool :=
 Definition pair_eqb {A B} (ea : A -> A -> bool) (eb : B -> B -> bool) (a b : A * B) : bool :=
   ea (fst a) (fst b) && eb (snd a) (snd b).
 
-Definition Qeqb (a b : Q) : bool := Qeq_bool a b.
 (* |a - b| <= tol *)
-Definition Qclose (tol a b : Q) : bool := Qle_bool (Qabs (a - b)) tol.
+Definition Qclose (tol a b : Q) : bool := Qleb (qabs (a - b)) tol.
+
+Definition nat_eqb := Nat.eqb.
+Definition oQ_eqb := option_eqb Qeqb.
+Definition oQ_close (tol : Q) := option_eqb (Qclose tol).
